@@ -5,7 +5,8 @@
 From Coq Require Import List Arith Bool PeanoNat Lia.
 Import ListNotations.
 Require Import Fggs.Model.Conj Fggs.Model.TreeDec Fggs.Proofs.TreeDec_tdok Fggs.Model.Factorize
-               Fggs.Proofs.Fz_final Fggs.Proofs.Fz_examples Fggs.Proofs.Fz_glue Fggs.Proofs.Fz_grammar.
+               Fggs.Proofs.Fz_final Fggs.Proofs.Fz_examples Fggs.Proofs.Fz_glue Fggs.Proofs.Fz_grammar
+               Fggs.Proofs.SP_refine Fggs.Proofs.Fz_gfinal.
 Require Import Fggs.Model.Semiring Fggs.Model.SumProduct Fggs.Proofs.SP_nonrec.
 
 Definition lA := NT [65] [0; 0].
@@ -107,4 +108,15 @@ Proof.
   { intros r [<-|[<-|[]]]; reflexivity. }
   split; [apply orc_ok_by_td_ok; reflexivity|].
   eexists. split; [vm_compute; reflexivity|]. split; reflexivity.
+Qed.
+
+(** the abstract hypothesis [refines] of Proofs/SP_refine.v, on the first example *)
+Example gN_refines :
+  exists g' cs, factorize_hrg_model 0 gN (fun _ => orcN) = Ok g'
+    /\ refines (to_sp_grammar [2] gN) (to_sp_grammar [2] g') 3 (M_of cs)
+               (rk_of (fh_elabels gN) (fh_elabels g') cs) (owner_of (fh_elabels gN) (fh_elabels g') cs).
+Proof.
+  destruct gN_hyps as (W & I & O & _ & g' & H & _).
+  destruct (factorize_hrg_spec gN orcN g' (wf_rules [2] gN W I) O H) as (cs & SP).
+  exists g', cs. split; [exact H|]. apply (factorize_refines [2] gN g' cs SP). now apply (wf_grammar_wf_fhrg [2]).
 Qed.
